@@ -223,6 +223,11 @@ def ntt_configs(tier, seed=0):
         for ncols, nphase, nblock, buf, dstmode in ((1, 3, 1, False, 'other'), (2, 0, 2, True, 'src'), (3, 2, 1, False, 'src'), (1, 1, 1, True, 'null'),
                                                     (2, 4, 3, False, 'other'), (5, 5, 2, True, 'other')):
             out.append((cap, n, ncols, nphase, nblock, buf, dstmode, 1))
+    # very wide matrices with a tiny transform (cost is linear in the columns): a column slice, a tile or a stack buffer of a few
+    # hundred elements shows here even when no new constant gives it away
+    for ncols in ((131, 1031) if tier == 'quick' else (131, 520, 1031, 4099)):
+        for n, nphase, nblock, buf, dstmode in ((2, 2, 1, False, 'src'), (2, 3, 1, False, 'other'), (4, 2, 2, True, 'src')):
+            out.append((n, n, ncols, nphase, nblock, buf, dstmode, 1))
     # threshold-directed shapes: both sides of every integer constant the transform code has that the pinned tree did not
     from . import thresholds
     extra, skipped = thresholds.ntt_extra(thresholds.new_thresholds('ntt'), tier)
@@ -260,6 +265,9 @@ def ext_configs(tier, seed=0):
     for capN, N, Next in big:
         for ncols, nphase, nblock, buf, inplace in ((1, 3, 1, False, True), (2, 2, 1, False, True), (3, 0, 2, True, False), (1, 4, 1, True, True), (2, 1, 3, False, False)):
             out.append((capN, N, Next, ncols, nphase, nblock, buf, 1, inplace))
+    for ncols in ((131, 1031) if tier == 'quick' else (131, 520, 1031, 4099)):
+        for N, Next, nphase, nblock, buf, inplace in ((2, 4, 2, 1, False, True), (2, 4, 3, 1, True, False), (1, 2, 2, 1, False, True), (2, 4, 2, 2, False, True)):
+            out.append((max(N, 2), N, Next, ncols, nphase, nblock, buf, 1, inplace))
     from . import thresholds
     extra, skipped = thresholds.ext_extra(thresholds.new_thresholds('ntt'), tier)
     out += extra
